@@ -55,6 +55,11 @@ func NewCtx(p *Program, property, tier string) *Ctx {
 
 func (c *Ctx) add(rule, construct string, pos token.Pos, v Verdict, detail string, path []string) {
 	key := rule + "|" + construct
+	for _, old := range c.Obls {
+		if old.Key == key && old.Verdict == v && old.Detail == detail {
+			return // same obligation evaluated twice (e.g. two loads of one field on one line)
+		}
+	}
 	o := Obligation{Rule: rule, Key: key, Construct: construct, Verdict: v, Detail: detail, Path: path}
 	if c.Prog != nil {
 		o.Pos = c.Prog.Rel(pos)
